@@ -327,6 +327,80 @@ fn c28_vacuum_after_compact() -> i32 {
     }
 }
 
+/// Witness class for C26: random insert/delete/lookup sequences over a small key alphabet with large
+/// keys (long runs of equal keys, many leaf and internal splits), checked against a reference multimap
+/// after every step.  `seed` and `steps` bound the search; this is a witness generator, not a proof.
+fn c26_multimap(seed: u64, steps: usize, alphabet: u64, key_len: usize) -> i32 {
+    use nervusdb_storage::index::btree::BTree;
+    use nervusdb_storage::pager::Pager;
+    let d = tmpdir("c26-multimap");
+    let ndb = d.join("t.ndb");
+    let mut rng = seed.wrapping_mul(0x9E3779B97F4A7C15) | 1;
+    let mut next = move || { rng ^= rng << 13; rng ^= rng >> 7; rng ^= rng << 17; rng };
+    let r = std::panic::catch_unwind(move || -> Result<usize, String> {
+        let mut pager = Pager::open(&ndb).map_err(|e| e.to_string())?;
+        let mut tree = BTree::create(&mut pager).map_err(|e| e.to_string())?;
+        // reference: per key, payloads in insertion order (last = newest)
+        let mut model: std::collections::BTreeMap<Vec<u8>, Vec<u64>> = std::collections::BTreeMap::new();
+        let mk = |a: u64| { let mut k = vec![b'k'; key_len]; k[0..8].copy_from_slice(&a.to_be_bytes()); k };
+        let mut payload = 0u64;
+        for step in 0..steps {
+            let a = next() % alphabet;
+            let k = mk(a);
+            let op = next() % 10;
+            if op < 6 {
+                payload += 1;
+                tree.insert(&mut pager, &k, payload).map_err(|e| format!("step {step}: insert failed: {e}"))?;
+                model.entry(k.clone()).or_default().push(payload);
+            } else if op < 9 {
+                // delete a stored pair (random position of the run) or a missing one
+                let stored = model.get(&k).cloned().unwrap_or_default();
+                let (p, present) = if !stored.is_empty() && next() % 4 != 0 { (stored[(next() % stored.len() as u64) as usize], true) } else { (u64::MAX - 5, false) };
+                let got = tree.delete(&mut pager, &k, p).map_err(|e| format!("step {step}: delete failed: {e}"))?;
+                if got != present { return Err(format!("step {step}: delete(key {a}, payload {p}) returned {got} but the pair was {}stored (run of {} equal keys)", if present { "" } else { "not " }, stored.len())); }
+                if present { let v = model.get_mut(&k).unwrap(); let i = v.iter().position(|x| *x == p).unwrap(); v.remove(i); if v.is_empty() { model.remove(&k); } }
+            } else {
+                // lookup: first entry at lower bound must be the newest payload of that key
+                let mut cur = tree.cursor_lower_bound(&pager, &k).map_err(|e| e.to_string())?;
+                let want = model.get(&k).and_then(|v| v.last().copied());
+                let got = if cur.is_valid().map_err(|e| e.to_string())? && cur.key().map_err(|e| e.to_string())? == k { Some(cur.payload().map_err(|e| e.to_string())?) } else { None };
+                if got != want { return Err(format!("step {step}: lookup(key {a}) returned payload {:?}, the most recently inserted is {:?} (run of {} equal keys)", got, want, model.get(&k).map(|v| v.len()).unwrap_or(0))); }
+            }
+            // full scan == model (keys ascending; as a multiset per key)
+            if step % 7 == 0 || step + 1 == steps {
+                let mut cur = tree.cursor_lower_bound(&pager, &[]).map_err(|e| e.to_string())?;
+                let mut got: Vec<(Vec<u8>, u64)> = Vec::new();
+                while cur.is_valid().map_err(|e| e.to_string())? {
+                    got.push((cur.key().map_err(|e| e.to_string())?, cur.payload().map_err(|e| e.to_string())?));
+                    if !cur.advance().map_err(|e| e.to_string())? { break; }
+                }
+                let keys_sorted = got.windows(2).all(|w| w[0].0 <= w[1].0);
+                let mut want: Vec<(Vec<u8>, u64)> = model.iter().flat_map(|(k, v)| v.iter().map(move |p| (k.clone(), *p))).collect();
+                let mut g2 = got.clone(); g2.sort(); want.sort();
+                if !keys_sorted || g2 != want {
+                    let per_key = |v: &Vec<(Vec<u8>, u64)>| -> Vec<(u64, usize)> { let mut m: std::collections::BTreeMap<u64, usize> = Default::default(); for (k, _) in v { *m.entry(u64::from_be_bytes(k[0..8].try_into().unwrap())).or_default() += 1; } m.into_iter().collect() };
+                    return Err(format!("step {step}: scan returned {} entries (keys in order: {keys_sorted}), the reference multimap holds {}; entries per key: scan {:?}, reference {:?}", got.len(), want.len(), per_key(&got), per_key(&want)));
+                }
+            }
+        }
+        Ok(steps)
+    });
+    let _ = std::fs::remove_dir_all(&d);
+    match r {
+        Ok(Ok(n)) => { println!("conforms: {n} random operations (seed {seed}, {alphabet} keys of {key_len} bytes) agree with the reference multimap"); 0 }
+        Ok(Err(e)) => { println!("VIOLATION reproduced: seed {seed}, alphabet {alphabet}, key length {key_len}: {e}"); 1 }
+        Err(_) => { println!("VIOLATION reproduced: seed {seed}: panic"); 1 }
+    }
+}
+fn c26_multimap_sweep(seeds: u64, steps: usize) -> i32 {
+    for seed in 1..=seeds {
+        for (alphabet, key_len) in [(3u64, 700usize), (5, 1500), (2, 400), (8, 2000), (40, 16)] {
+            if c26_multimap(seed, steps, alphabet, key_len) != 0 { return 1; }
+        }
+    }
+    0
+}
+
 fn main() {
     let a: Vec<String> = std::env::args().collect();
     let code = match a.get(1).map(|s| s.as_str()) {
@@ -337,6 +411,8 @@ fn main() {
         Some("c17_truncate_every_byte") => c17_truncate_every_byte(),
         Some("c17_commit_after_tail") => c17_commit_after_tail(&[0x01, 0x02]),
         Some("c18_node_table_spill") => c18_node_table_spill(),
+        Some("c26_multimap_quick") => c26_multimap_sweep(3, 400),
+        Some("c26_multimap_thorough") => c26_multimap_sweep(40, 1500),
         Some("c28_vacuum_after_compact") => c28_vacuum_after_compact(),
         Some("c17_commit_after_tail_shapes") => c17_commit_after_tail_shapes(),
         Some("c17_aborted_then_commit") => c17_aborted_then_commit(),
